@@ -62,7 +62,7 @@ def main():
                                                          {1: 'VIOLATION', 0: 'missed (exit 0)', 2: 'tool failure'}.get(c.get('exit'), 'not run'),
                                                          rp.get('kind', ''), cl.replace('|', '\\|')))
         if meta.get('history'):
-            print('|  |  | history: %s |  |  |  |  |' % meta['history'].replace('|', '\\|'))
+            print('|  |  | history: %s |  |  |  |  |' % ('; '.join(meta['history']) if isinstance(meta['history'], list) else meta['history']).replace('|', '\\|'))
 
 
 if __name__ == '__main__':
